@@ -151,11 +151,31 @@ fn native_callback_trampoline(
         &mut error_out,
     );
 
-    // Clean up argument handles
+    // A callback may hand back one of the handles it was given (`return args[0];`). Read the
+    // result while every handle is still alive, and release such a handle only once.
+    let result_is_argument =
+        !result.is_null() && (result == this_handle || arg_handles.contains(&result));
+    let returned = if result.is_null() {
+        Guarded::unguarded(JsValue::Undefined)
+    } else {
+        let value = unsafe { (*result).inner.value().clone() };
+        if let JsValue::Object(obj) = &value {
+            let guard = interp.heap.create_guard();
+            guard.guard(obj.cheap_clone());
+            Guarded::with_guard(value, guard)
+        } else {
+            Guarded::unguarded(value)
+        }
+    };
+
+    // Clean up argument handles and the result handle (owned by us once returned)
     unsafe {
         drop(Box::from_raw(this_handle));
         for handle in arg_handles {
             drop(Box::from_raw(handle));
+        }
+        if !result.is_null() && !result_is_argument {
+            drop(Box::from_raw(result));
         }
     }
 
@@ -167,19 +187,7 @@ fn native_callback_trampoline(
         return Err(JsError::type_error(error_str));
     }
 
-    if result.is_null() {
-        Ok(Guarded::unguarded(JsValue::Undefined))
-    } else {
-        let result_val = unsafe { Box::from_raw(result) };
-        // Create a guard for the result if it's an object
-        if let JsValue::Object(obj) = result_val.inner.value() {
-            let guard = interp.heap.create_guard();
-            guard.guard(obj.cheap_clone());
-            Ok(Guarded::with_guard(result_val.inner.value().clone(), guard))
-        } else {
-            Ok(Guarded::unguarded(result_val.inner.value().clone()))
-        }
-    }
+    Ok(returned)
 }
 
 // ============================================================================
